@@ -197,6 +197,12 @@ class Zoo:
         self.layer, self.trainer = None, None
         self.mods = {"neurons": h}
 
+    def build_neurons64(self):
+        """the same bare neuron groups converted with .to(float64): every state buffer stays float64 through clear() and load"""
+        self.build_neurons()
+        self.holder = self.holder.to(torch.float64)
+        self.mods = {"neurons": self.holder}
+
     def build_classifier(self):
         self.clf = MaxRateClassifier((3,), 2, decay=0.1)
         self.n_in = 3
@@ -211,10 +217,12 @@ class Zoo:
             for r in self.holder.children():
                 r(x)
             return {"peek:" + n: r.peek().clone() for n, r in self.holder.named_children()}
-        if self.name == "neurons":
+        if self.name in ("neurons", "neurons64"):
             outs = {}
             for n, m in self.holder.named_children():
-                x = torch.tensor([[float(b) for b in bits]]) * (30.0 if n == "lif_int" else 2.5)
+                x = torch.tensor([[float(b) for b in bits]], dtype=m.voltage.dtype if self.name == "neurons64" else torch.float32) * (30.0 if n == "lif_int" else 2.5)
+                if self.name == "neurons64":
+                    x = x + 2.0 ** -30  # a component float32 cannot hold: a buffer that fell back to float32 loses it
                 outs[n] = m(x).clone()
                 outs["v:" + n] = m.voltage.clone()
             return outs
@@ -249,7 +257,7 @@ class Zoo:
         if self.name == "reducers":
             for r in self.holder.children():
                 r.clear(keepshape=True)
-        elif self.name == "neurons":
+        elif self.name in ("neurons", "neurons64"):
             for m in self.holder.children():
                 m.clear()
         elif self.name != "classifier":
@@ -287,7 +295,7 @@ class Zoo:
 
 ZOO_EXTRA = ("dense_delta_qif_dastdpd", "direct_exp_glif2_mstdp", "dense_dexp_eif_dakernel")
 ZOO = ("dense_exp_lif_stdp", "dense_delta_lif_inthp_stdp", "direct_delta_alif_triplet", "lateral_dexp_adex_mstdpet", "conv_deltaplus_izh_kernel", "biclique_homeostasis",
-       "recurrent_dastdp", "reducers", "neurons", "classifier")
+       "recurrent_dastdp", "reducers", "neurons", "neurons64", "classifier")
 
 
 def eq(a, b):
